@@ -200,6 +200,7 @@ fn load_glyphs<P: FontTableProvider>(p: &P, what: &str, expect_glyphs: Option<u1
     } else if p.has_table(tag::CFF) {
         let d = rd(tag::CFF, "CFF")?;
         let mut cff = ReadScope::new(&d).read::<CFF<'_>>().map_err(|e| fail("self-load", format!("{}: CFF: {:?}", what, e)))?;
+        cff_charset_queries(&cff, limit, what)?;
         for g in 0..limit {
             cff.visit(g, &mut sink).map_err(|e| fail("self-load", format!("{}: CFF outline of glyph {} of {}: {:?}", what, g, n, e)))?;
         }
@@ -212,6 +213,21 @@ fn load_glyphs<P: FontTableProvider>(p: &P, what: &str, expect_glyphs: Option<u1
         }
     }
     let _ = want_font;
+    Ok(())
+}
+
+/// "the library itself can ... query every retained glyph": the name (SID) / CID of every glyph of a
+/// written CFF font through the library's own charset reader
+fn cff_charset_queries(cff: &CFF<'_>, n: u16, what: &str) -> CaseResult {
+    let Some(font) = cff.fonts.first() else { return Ok(()) };
+    for g in 0..n {
+        if font.charset.id_for_glyph(g).is_none() {
+            return Err(fail(
+                "self-query:cff-glyph-without-charset-entry",
+                format!("{}: CFF charset.id_for_glyph({}) is None in a font of {} glyphs ({} CharStrings)", what, g, n, font.char_strings_index.len()),
+            ));
+        }
+    }
     Ok(())
 }
 
@@ -464,6 +480,7 @@ fn check_subset_inner(src_name: &str, bytes: &[u8], n: u16, outline: Outline, c:
         let mut cff = ReadScope::new(&out).read::<CFF<'_>>().map_err(|e| fail("self-load", format!("{}: bare CFF does not load: {:?}", what, e)))?;
         let mut sink = CountSink(0);
         let ncs = cff.fonts.first().map(|f| f.char_strings_index.len()).unwrap_or(0).min(ids.len());
+        cff_charset_queries(&cff, ncs as u16, &what)?;
         for g in 0..ncs as u16 {
             cff.visit(g, &mut sink).map_err(|e| fail("self-load", format!("{}: bare CFF outline of glyph {}: {:?}", what, g, e)))?;
         }
@@ -622,8 +639,11 @@ fn check_subset_generated(c: &(GenFont, SubsetCase), rec: &mut Rec) -> CaseResul
 
 /// C18-generated name-keyed / CID-keyed CFF fonts (the generator C07 subsets, here biased to more
 /// than 255 glyphs so that the Type 1 -> CID conversion runs; with and without local / global subroutines).
-fn gen_cff_strategy() -> impl Strategy<Value = crate::props::c18::Case> {
-    (crate::props::c07::c18_case_strategy(), prop_oneof![1 => Just(0usize), 1 => 257usize..=330]).prop_map(|(mut c, big)| {
+/// One case in five is in *ISOAdobe-prefix mode* (`IsoPrefix`).
+fn gen_cff_strategy() -> impl Strategy<Value = (crate::props::c18::Case, Option<IsoPrefix>)> {
+    (crate::props::c07::c18_case_strategy(), prop_oneof![2 => Just(0usize), 2 => 257usize..=330, 1 => Just(1usize)], iso_prefix_strategy()).prop_map(|(mut c, big, iso)| {
+        let iso = if big == 1 { Some(iso) } else { None };
+        let big = iso.as_ref().map(|i| i.nglyphs).unwrap_or(big);
         if big > 0 {
             c.nglyphs = big;
             c.cuts = c.cuts.min(1);
@@ -634,19 +654,101 @@ fn gen_cff_strategy() -> impl Strategy<Value = crate::props::c18::Case> {
         // CFF2 sources are left to C07: the CFF2 -> CFF conversion copies operand lists longer than the 48 a CFF
         // charstring may hold (known finding C07:cff2-operand-list-over-48-not-split, attributed there by a
         // defect model); here every such subset would only fail to self-load
-        if c.kind == crate::props::c18::Kind::Cff2 {
+        if c.kind == crate::props::c18::Kind::Cff2 || iso.is_some() {
             c.kind = crate::props::c18::Kind::NameKeyed;
             c.nfd = 1;
         }
-        c
+        (c, iso)
     })
 }
 
-fn check_subset_generated_cff(c: &(crate::props::c18::Case, SubsetCase), rec: &mut Rec) -> CaseResult {
+/// ISOAdobe-prefix mode: a name-keyed source of 226..=300 glyphs whose charset (format 0 or 1) names
+/// glyphs 1..=prefix by SIDs 1..=prefix (the order of the predefined ISOAdobe charset, which ends with
+/// SID 228) and the glyphs after them by SID glyph+gap (still standard strings, <= 390); the glyph list
+/// is 0, 1, ..., head plus a few glyphs anywhere, so the subset's charset starts in ISOAdobe order for
+/// min(prefix, head) glyphs and the subset size lies on both sides of 229 (the size of ISOAdobe) and of
+/// the 256-glyph CID threshold.
+#[derive(Clone, Debug)]
+pub struct IsoPrefix {
+    pub nglyphs: usize,
+    pub prefix: u16,
+    pub gap: u16,
+    pub format1: bool,
+    /// the glyph list starts 0, 1, ..., head
+    pub head: u16,
+    /// how many of the SubsetCase's random picks are kept
+    pub tail: usize,
+    pub keep_order: bool,
+}
+
+const ISO_ADOBE_GLYPHS: usize = 229;
+
+fn iso_prefix_strategy() -> impl Strategy<Value = IsoPrefix> {
+    (
+        prop_oneof![3 => 226usize..=262, 1 => 263usize..=300],
+        prop_oneof![2 => 200u16..228, 2 => Just(228u16), 1 => Just(229u16), 2 => 230u16..=300],
+        1u16..=40,
+        any::<bool>(),
+        prop_oneof![2 => 215u16..228, 1 => Just(228u16), 1 => Just(229u16), 3 => 230u16..=254, 1 => 255u16..=262],
+        0usize..=6,
+        proptest::bool::weighted(0.1),
+    )
+        .prop_map(|(nglyphs, prefix, gap, format1, head, tail, keep_order)| IsoPrefix { nglyphs, prefix, gap, format1, head, tail, keep_order })
+}
+
+impl IsoPrefix {
+    /// SIDs of glyphs 1..nglyphs
+    fn sids(&self) -> Vec<u16> {
+        (1..self.nglyphs as u16).map(|g| if g <= self.prefix { g } else { g + self.gap }).collect()
+    }
+}
+
+fn check_subset_generated_cff(c: &((crate::props::c18::Case, Option<IsoPrefix>), SubsetCase), rec: &mut Rec) -> CaseResult {
+    use crate::fontgen::cff::CharsetModel;
     use crate::props::c18;
-    let (cc, sc) = c;
-    let b = c18::build(cc);
+    let ((cc, iso), sc) = c;
+    let mut sc = sc.clone();
+    let b = match iso {
+        Some(i) => {
+            let sids = i.sids();
+            c18::build_with_charset(cc, if i.format1 { CharsetModel::Format1(sids) } else { CharsetModel::Format0(sids) })
+        }
+        None => c18::build(cc),
+    };
     let n = b.glyphs.len() as u16;
+    if let Some(i) = iso {
+        sc.run = Some((0, i.head));
+        sc.picks.truncate(i.tail);
+        if !i.keep_order {
+            sc.order = 0;
+        }
+        rec.class("source:generated-cff-isoadobe-prefix-charset");
+        rec.class(match i.prefix.min(n - 1) {
+            0..=227 => "iso-prefix:shorter-than-228",
+            228 => "iso-prefix:exactly-228",
+            _ => "iso-prefix:longer-than-228",
+        });
+        // the class of the ISOAdobe decision: what the subset's charset looks like
+        let ids = glyph_list(n, &sc.picks, sc.run, sc.order, sc.seed);
+        let sids = i.sids();
+        let out_sids: Vec<u16> = ids[1..].iter().filter_map(|g| sids.get(usize::from(*g).wrapping_sub(1)).copied()).collect();
+        let lead = out_sids.iter().zip(1u16..).take_while(|(s, k)| **s == *k).count();
+        let stays_name_keyed = ids.len() <= 255 || (sc.api != 0 && !sc.convert);
+        if sc.order < 3 {
+            rec.class(match ids.len() {
+                0..=228 => "iso-subset:glyphs<229",
+                229 => "iso-subset:glyphs=229",
+                230..=255 => "iso-subset:glyphs-230..255",
+                _ => "iso-subset:glyphs-256+",
+            });
+            rec.class(match (lead == out_sids.len(), lead >= ISO_ADOBE_GLYPHS - 1, ids.len() > ISO_ADOBE_GLYPHS) {
+                (true, _, false) => "iso-subset:charset-is-leading-part-of-ISOAdobe",
+                (_, true, true) if stays_name_keyed => "iso-subset:charset-is-ISOAdobe-plus-more-glyphs(name-keyed-output)",
+                (_, true, true) => "iso-subset:charset-is-ISOAdobe-plus-more-glyphs(cid-output)",
+                _ => "iso-subset:charset-leaves-ISOAdobe-order-before-228",
+            });
+        }
+    }
     let cff2 = cc.kind == c18::Kind::Cff2;
     let otf = crate::fontgen::cff::build_otf(b.table.clone(), cff2, n, &[]);
     rec.artefact("source", &otf);
@@ -657,7 +759,7 @@ fn check_subset_generated_cff(c: &(crate::props::c18::Case, SubsetCase), rec: &m
     });
     rec.class_if(n > 255, "source:generated-cff>255-glyphs");
     rec.class_if(cc.cuts == 0 && cc.nfrags == 0, "source:generated-cff-without-subroutines");
-    check_subset_on("generated-cff", &otf, n, if cff2 { Outline::Cff2 } else { Outline::Cff }, sc, rec)
+    check_subset_on("generated-cff", &otf, n, if cff2 { Outline::Cff2 } else { Outline::Cff }, &sc, rec)
 }
 
 // ------------------------------------------------------------------------------ whole_font
